@@ -9,7 +9,7 @@ use serde_json::Value;
 
 pub const META: PropMeta = PropMeta {
     level: "exploration",
-    rule: "same history generator and small-scope enumeration as C01 (own seeds); the muxer's bytes are decoded by the harness' own box walker and sample-table decoders (no library code): exact tiling at every level, ftyp first, one moov, one mdat, per-track table totals against the model (N, sum of sizes, sum of durations), stsc expansion over the chunk count, stss strictly increasing in range, chunks inside the mdat payload and pairwise disjoint, mdhd/tkhd/mvhd durations (one-tick tolerance in exact integer arithmetic), 64-bit forms exactly when required. Non-trivial and distinct as in C01.",
+    rule: "same history generator (incl. short-write sinks, refused add_track calls, occasional samples above 64 KiB) and small-scope enumeration as C01 (own seeds); the muxer's bytes are decoded by the harness' own box walker and sample-table decoders (no library code): exact tiling at every level, ftyp first, one moov, one mdat, per-track table totals against the model (N, sum of sizes, sum of durations), stsc expansion over the chunk count, stss strictly increasing in range, chunks inside the mdat payload and pairwise disjoint, mdhd/tkhd/mvhd durations (one-tick tolerance in exact integer arithmetic), 64-bit forms exactly when required. Non-trivial and distinct as in C01.",
     assumptions: &["the reference parser implements ISO/IEC 14496-12 box syntax for the boxes the muxer emits", "N, sizes and durations come from the model of accepted calls, never from the file"],
 };
 
